@@ -739,6 +739,9 @@ impl<Db: KvDatabase> WriteBehind<Db> {
     ) {
         while let Ok(mut task) = receiver.recv() {
             #[cfg(feature = "verif")]
+            crate::verif::event("wb_ac_got", task.write_buffer.epoch.0, 0);
+
+            #[cfg(feature = "verif")]
             crate::verif::thread_point("wb_ac_recv");
 
             let epoch = task.write_buffer.epoch();
@@ -766,6 +769,9 @@ impl<Db: KvDatabase> WriteBehind<Db> {
         db: &Db,
     ) {
         while let Ok(task) = receiver.recv() {
+            #[cfg(feature = "verif")]
+            crate::verif::event("wb_ser_got", task.write_buffer.epoch.0, 0);
+
             #[cfg(feature = "verif")]
             crate::verif::thread_point("wb_ser_recv");
 
@@ -802,6 +808,9 @@ impl<Db: KvDatabase> WriteBehind<Db> {
         };
 
         while let Ok(task) = receiver.recv() {
+            #[cfg(feature = "verif")]
+            crate::verif::event("wb_commit_got", task.write_buffer.epoch.0, 0);
+
             #[cfg(feature = "verif")]
             crate::verif::thread_point("wb_commit_recv");
 
